@@ -3,6 +3,7 @@
 package main
 
 import (
+	"strings"
 	"flag"
 	"fmt"
 	"os"
@@ -26,7 +27,26 @@ func main() {
 	noVariants := flag.Bool("no-variants", false, "evaluate only the program as written (no inlined variants)")
 	dumpFuncs := flag.Bool("dump-funcs", false, "print the names of all top-level functions and methods of the main module (baseline for the inlining variants)")
 	selftest := flag.Bool("selftest-inline", false, "build the inlined variants of the program and run go/ssa's sanity checker on every function")
+	dumpVariant := flag.String("dump-variant", "", "debug: LEVEL:pkg/rel:funcSubstring – print the SSA of the matching functions in that variant of the program")
 	flag.Parse()
+	if *dumpVariant != "" {
+		parts := strings.SplitN(*dumpVariant, ":", 3)
+		lvl, _ := strconv.Atoi(parts[0])
+		p, err := core.Load(*repo, false)
+		if err != nil || len(parts) != 3 {
+			fmt.Println(err)
+			os.Exit(2)
+		}
+		if lvl > 0 {
+			p = p.Variant(lvl)
+		}
+		for _, f := range p.PkgFuncs(parts[1]) {
+			if strings.Contains(core.FuncName(f), parts[2]) {
+				f.WriteTo(os.Stdout)
+			}
+		}
+		os.Exit(0)
+	}
 	seed, _ := strconv.ParseInt(os.Getenv("VERIF_SEED"), 10, 64)
 	if t := os.Getenv("VERIF_TIER"); t != "" && *tier == "" {
 		*tier = t
